@@ -337,3 +337,147 @@ def rule_sequence_separator(ctx: Ctx, rule: str) -> None:
     ctx.ob(rule, f'{WP}:WcParse._sequence/separator-in-brackets', ok, repo.loc(WP, arms[0] if arms else sq.node),
            'value = separator class when not unix', '; '.join(norm_src(a) for a in arms) or 'arm not found', note='F18',
            witness="fnmatch('a\\\\b', 'a[/]b', flags=FORCEWIN) is False although fnmatch('a\\\\b', 'a/b', flags=FORCEWIN) is True")
+
+
+FORWARD_MODULES = ('fnmatch', 'glob', 'pathlib', '_wcparse', '_wcmatch')
+FORWARD_SKIP = {'self', 'cls', 'flags'}  # flags are transformed on the way (checked by the flag-flow rules)
+
+
+def rule_same_name_forwarding(ctx: Ctx, rule: str) -> None:
+    ctx.text(rule, 'same-name forwarding: when a function of the public layers (fnmatch, glob, pathlib, _wcparse entry points, matcher '
+                   'objects) calls a package function that has a parameter with the same name as one of its own parameters, the call '
+                   'binds that parameter to the caller\'s own parameter (never to another value, never silently to the default)')
+    from ..callgraph import resolve_callee
+    repo = ctx.repo
+    n = 0
+    for mod in FORWARD_MODULES:
+        m = repo.mod(mod)
+        for fi in m.functions.values():
+            if not hasattr(fi.node, 'args') or fi.qualname.startswith('<lambda'):
+                continue
+            if mod in ('_wcparse',) and fi.qualname not in ('compile',):
+                continue  # the expansion pipeline below the entry points re-uses these names for derived values
+            if mod == '_wcmatch' and not fi.qualname.startswith(('WcRegexp.', 'WcMatcher.')):
+                continue
+            if mod == 'glob' and fi.qualname.startswith(('Glob._', '_GlobSplit.')):
+                continue
+            own = [p for p in fi.params() if p not in FORWARD_SKIP]
+            if not own:
+                continue
+            reassigned = {t.id for s in walk_no_nested(fi.node) if isinstance(s, (ast.Assign, ast.AugAssign))
+                          for t in (s.targets if isinstance(s, ast.Assign) else [s.target]) if isinstance(t, ast.Name)}
+            for c in [x for x in walk_no_nested(fi.node) if isinstance(x, ast.Call)]:
+                r = resolve_callee(repo, fi, c)
+                if not isinstance(r, list) or not r:
+                    continue
+                callee = r[0]
+                if not hasattr(callee.node, 'args'):
+                    continue
+                if fi.fq == '_wcparse:compile' and callee.fq != '_wcparse:compile_pattern':
+                    continue
+                cparams = callee.params()
+                if callee.cls and callee.parent is None and cparams and cparams[0] in ('self', 'cls'):
+                    cparams = cparams[1:]
+                kwonly = {a.arg for a in callee.node.args.kwonlyargs}
+                has_star = any(isinstance(a, ast.Starred) for a in c.args) or any(k.arg is None for k in c.keywords)
+                if has_star:
+                    continue
+                for p in own:
+                    if p not in cparams:
+                        continue
+                    idx = cparams.index(p)
+                    arg = next((k.value for k in c.keywords if k.arg == p), None)
+                    if arg is None and p not in kwonly and idx < len(c.args):
+                        arg = c.args[idx]
+                    n += 1
+                    from ..boolform import resolved_src
+                    src = resolved_src(fi.node, arg) if arg is not None else '<not passed>'
+                    ok = arg is not None and (src == p or (isinstance(arg, ast.IfExp) and p in src) or
+                                              (src in (f'os.fspath({p})', f'os.fspath({p}) if {p} is not None else None')) or
+                                              (p in reassigned and p in src))
+                    if callee.fq == fi.fq and src != p:
+                        ok = p in src  # recursion with a derived value (exclude= pass)
+                    ctx.ob(rule, f'{fi.fq}->{callee.fq.split(":")[1]}/{p}', ok, repo.loc(mod, c), f'{p}={p}', f'{p}={src}',
+                           witness=f"{fi.qualname}(..., {p}=X) must hand X to {callee.qualname}: e.g. glob(root_dir=…)/dir_fd=/exclude= silently ignored or crossed")
+    ctx.floor(rule, 'same-name parameter hand-overs', n, 60)
+
+
+def rule_match_siblings(ctx: Ctx, rule: str) -> None:
+    ctx.text(rule, 'WcRegexp.match and WcRegexp.filter build _Match from the same five fields in the same order and pass root_dir / dir_fd '
+                   'alike; _Match.__init__ stores every parameter in the like-named attribute')
+    repo = ctx.repo
+    want = ['self._include', 'self._exclude', 'self._real', 'self._path', 'self._follow']
+    for meth in ('match', 'filter'):
+        f = repo.func('_wcmatch', f'WcRegexp.{meth}')
+        cs = [c for c in walk_no_nested(f.node) if isinstance(c, ast.Call) and norm_src(c.func) == '_Match']
+        ok = len(cs) == 1 and norm_src(cs[0].args[0]) == 'os.fspath(filename)' and [norm_src(a) for a in cs[0].args[1:]] == want
+        ctx.ob(rule, f'_wcmatch:WcRegexp.{meth}/_Match-arguments', ok, repo.loc('_wcmatch', cs[0] if cs else f.node), '_Match(os.fspath(filename), ' + ', '.join(want) + ')',
+               norm_src(cs[0])[:140] if cs else 'none', witness='swapping _real and _path makes REALPATH matchers ignore the file system')
+        outer = [c for c in walk_no_nested(f.node) if isinstance(c, ast.Call) and isinstance(c.func, ast.Attribute) and c.func.attr == 'match' and
+                 isinstance(c.func.value, ast.Call) and norm_src(c.func.value.func) == '_Match']
+        kw = {k.arg: norm_src(k.value) for k in outer[0].keywords} if outer else {}
+        okk = bool(outer) and set(kw) == {'root_dir', 'dir_fd'} and kw['dir_fd'] == 'dir_fd' and \
+            kw['root_dir'] in ('os.fspath(root_dir) if root_dir is not None else None', 'rdir')
+        ctx.ob(rule, f'_wcmatch:WcRegexp.{meth}/match-arguments', okk, repo.loc('_wcmatch', f.node), '.match(root_dir=<fspath of root_dir>, dir_fd=dir_fd)', str(kw))
+    init = repo.func('_wcmatch', '_Match.__init__')
+    pairs = {norm_src(s.targets[0]): norm_src(s.value) for s in walk_no_nested(init.node) if isinstance(s, ast.Assign)}
+    want2 = {f'self.{p}': p for p in ('filename', 'include', 'exclude', 'real', 'path', 'follow')}
+    bad = {k: pairs.get(k) for k, v in want2.items() if pairs.get(k) != v}
+    ctx.ob(rule, '_wcmatch:_Match.__init__/field-sources', not bad, repo.loc('_wcmatch', init.node), 'self.x = x for the six fields', 'ok' if not bad else str(bad))
+    ctx.ob(rule, '_wcmatch:_Match.__init__/parameter-order', init.params() == ['self', 'filename', 'include', 'exclude', 'real', 'path', 'follow'],
+           repo.loc('_wcmatch', init.node), '(filename, include, exclude, real, path, follow)', str(init.params()))
+
+
+def rule_lookahead_putback(ctx: Ctx, rule: str) -> None:
+    ctx.text(rule, 'look-ahead / put-back pairing in the parser: a `while c == K: c = next(i)` scan reads one character too many, so its '
+                   'normal exit must be followed by i.rewind(1)')
+    repo = ctx.repo
+    n = 0
+    for qn in ('WcParse.consume_path_sep', 'WcParse._handle_star'):
+        fi = repo.func(WP, qn)
+        par = enclosing_map(fi.node)
+        for w in [x for x in walk_no_nested(fi.node) if isinstance(x, ast.While)]:
+            if not any(isinstance(s, ast.Assign) and norm_src(s) == 'c = next(i)' for s in w.body):
+                continue
+            if isinstance(w.test, ast.Constant):
+                continue
+            n += 1
+            blk = par.get(id(w))
+            body = None
+            for fld in ('body', 'orelse', 'finalbody'):
+                seq = getattr(blk, fld, None)
+                if isinstance(seq, list) and w in seq:
+                    body = seq
+            nxt = body[body.index(w) + 1] if body is not None and body.index(w) + 1 < len(body) else None
+            ok = nxt is not None and isinstance(nxt, ast.Expr) and norm_src(nxt.value) == 'i.rewind(1)'
+            ctx.ob(rule, f'{WP}:{qn}/putback[{norm_src(w.test)}]', ok, repo.loc(WP, w), 'i.rewind(1) right after the scan loop', norm_src(nxt)[:50] if nxt is not None else 'nothing follows',
+                   witness="globmatch('a/b', 'a//b') / fnmatch('ab', '**b'): the character after the run would be swallowed")
+    ctx.floor(rule, 'scan loops', n, 3)
+
+
+def rule_inverse_cleanup(ctx: Ctx, rule: str) -> None:
+    ctx.text(rule, 'clean_up_inverse: the rest-of-pattern slot of `!(…)` is closed with the end-of-name assertion (_EOP in name mode, '
+                   'path_eop in path mode) unless the group is nested; the placeholder is replaced by rest + close template; the counter '
+                   'of open inverse groups is cleared')
+    repo = ctx.repo
+    fi = repo.func(WP, 'WcParse.clean_up_inverse')
+    q = fq(fi)
+    apps = [c for c in q.calls(lambda s: s == 'content.append')]
+    ok = len(apps) == 1 and isinstance(apps[0].args[0], ast.IfExp) and q.guarded(apps[0], 'nested', 'F')
+    if ok:
+        e = apps[0].args[0]
+        t, b, o = norm_src(e.test), norm_src(e.body), norm_src(e.orelse)
+        ok = (t, b, o) in (('not self.pathname', '_EOP', 'self.path_eop'), ('self.pathname', 'self.path_eop', '_EOP'))
+    ctx.ob(rule, f'{WP}:WcParse.clean_up_inverse/end-assertion', ok, repo.loc(WP, apps[0] if apps else fi.node),
+           'if not nested: content.append(_EOP if not self.pathname else self.path_eop)', norm_src(apps[0])[:90] if apps else 'none',
+           witness="globmatch('ab/', '!(a)', EXTGLOB): in path mode the negation must also stop at a separator")
+    early = [n for n in fi.node.body if isinstance(n, ast.If) and norm_src(n.test) == 'not self.inv_ext' and any(isinstance(s, ast.Return) for s in n.body)]
+    reset = [s for s in fi.node.body if isinstance(s, ast.Assign) and norm_src(s) == 'self.inv_ext = 0']
+    ctx.ob(rule, f'{WP}:WcParse.clean_up_inverse/counter', len(early) == 1 and len(reset) == 1, repo.loc(WP, fi.node), 'returns early when no inverse group is open; clears inv_ext at the end',
+           f'early={len(early)} reset={len(reset)}')
+    cl = [c for c in walk_no_nested(fi.node) if isinstance(c, ast.Call) and norm_src(c.func) == '_EXCLA_GROUP_CLOSE.format']
+    okc = len(cl) == 1 and norm_src(cl[0].args[0]) == 'str(current[index])'
+    ctx.ob(rule, f'{WP}:WcParse.clean_up_inverse/close-template', okc, repo.loc(WP, fi.node), '_EXCLA_GROUP_CLOSE.format(str(current[index]))', norm_src(cl[0]) if cl else 'none',
+           witness="fnmatch('b', '!(a)', E): the placeholder carries the star that follows the assertion")
+    ph = [c for c in walk_no_nested(fi.node) if isinstance(c, ast.Call) and norm_src(c.func) == 'isinstance' and 'InvPlaceholder' in norm_src(c)]
+    ctx.ob(rule, f'{WP}:WcParse.clean_up_inverse/placeholder-test', len(ph) == 1, repo.loc(WP, fi.node), 'isinstance(current[index], InvPlaceholder)', str(len(ph)))
